@@ -73,6 +73,8 @@ c06a_run(const c06a_case *c, c06a_out *out) {
 	case 0: ud.ident = (uintptr_t)ga_sp[0]; break;
 	case 1: ud.ident = (uintptr_t)-1; break;
 	case 2: ud.ident = (uintptr_t)getdtablesize() + 5; break;
+	case 4: ud.ident = ((uintptr_t)1 << 32) | (uintptr_t)ga_sp[0]; break; /* not a descriptor, but its low 32 bits are one */
+	case 5: ud.ident = ((uintptr_t)1 << 63) | (uintptr_t)ga_sp[0]; break;
 	default: ud.ident = (uintptr_t)&ud; break;
 	}
 	ud.tpt = tp_thread_get(ga_tp, 0);
@@ -246,6 +248,13 @@ c06b_run(const c06b_case *c, c06b_out *out) {
 			gb_ud[ch].ident = (uintptr_t)&gb_ud[ch];
 			if (c->period_ms[ch] > max_period)
 				max_period = c->period_ms[ch];
+		}
+	}
+	for (ch = 0; ch < C06_MAX_CH; ch ++) { /* timers named after another channel's descriptor number */
+		if (3 == c->kind[ch] && 0 != c->timer_ident_of[ch]) {
+			size_t k = (size_t)(c->timer_ident_of[ch] - 1) % C06_MAX_CH;
+			if (k != ch && gb_sp[k][0] >= 0)
+				gb_ud[ch].ident = (uintptr_t)gb_sp[k][0];
 		}
 	}
 	tp_harness_arm();
